@@ -242,3 +242,9 @@ func (w *World) VerifDump() []int64 {
 	out = append(out, int64(m.pool.next), int64(m.pool.available))
 	return out
 }
+
+// VerifIsTrivial exposes the classification that decides whether a component column is copied with the
+// write-barrier-free raw copy (trivial) or through reflection.
+func VerifIsTrivial(tp reflect.Type) bool {
+	return isTrivial(tp)
+}
